@@ -16,7 +16,9 @@ EXPLANATION = (
     "populations of one greedy plus 1..2 sampled tours: the resulting matrix equals evaporate-everything-then-deposit "
     "(symmetrically, on the consecutive city pairs of every sampled tour resp. of the best sampled tour, by "
     "decay/length resp. 1/length), the greedy tour is never rewarded, and for the max-min variant every trail ends "
-    "within [min, max]. NOT decided: finiteness and non-negativity for arbitrary run lengths as numbers.")
+    "within [min, max]. (R3) the matrix type itself (R1/R2 model it by rows): new() builds d*d equal trails, m[i] / &mut m[i] are "
+    "entries i*d..(i+1)*d of the storage and abort for i >= d, m *= r multiplies every entry exactly once, AcoGeneration::init "
+    "installs new(problem.dimension(), default_pheromones). NOT decided: finiteness and non-negativity for arbitrary run lengths as numbers.")
 ASSUMPTIONS = ["WeightedIndex::new succeeds iff all weights are >= 0 and their sum is > 0; its sample returns a valid index"]
 
 GEN = "mahf::components::generative::"
